@@ -322,6 +322,18 @@ def rule_d(repo, chk):
             for t in n.ast.targets:
                 if isinstance(t, ast.Subscript) and src(t.value).startswith('self._cache'):
                     cache_store_vals.append((n, n.ast.value))
+    # a definition that merely copies another local (`handlers = result_of_helper`) stands for the definitions of that local
+    for _round in range(3):
+        more = []
+        for dn in defs:
+            v0 = dn.ast.value if dn.kind == 'stmt' and isinstance(dn.ast, ast.Assign) else None
+            if isinstance(v0, ast.Name) and v0.id != lv:
+                more.extend(Q.reaching_defs(g, dn, v0.id))
+            else:
+                more.append(dn)
+        if more == defs:
+            break
+        defs = more
     for dn in defs:
         if dn.kind == 'entry':
             chk.ob('d', d.ref, 'the handler list is defined on every path before the loop', False, loc(d, loop.ast),
